@@ -1,5 +1,6 @@
 pub mod common;
 pub mod c01;
+pub mod c02;
 
 use crate::explore::{Limits, Violation};
 use crate::world::{Outcome, Scenario};
@@ -18,6 +19,7 @@ pub struct SimCheck {
 pub fn sim_check(id: &str, tier: &str, _seed: i64) -> Option<SimCheck> {
     match id {
         "C01" => Some(c01::build(tier)),
+        "C02" => Some(c02::build(tier)),
         _ => None,
     }
 }
